@@ -213,6 +213,7 @@ func cmdCheck(args []string) int {
 	var notes = map[string]int{}
 	assumed := map[string]bool{}
 	funcsUnder := []string{}
+	nameCount := map[string]int{}
 	for _, pf := range cfg.Functions {
 		fr := p.verifyFunction(pf.Key)
 		funcsUnder = append(funcsUnder, pf.Key)
@@ -236,6 +237,10 @@ func cmdCheck(args []string) int {
 		for _, o := range fr.Obligations {
 			if !selected(o.Name, pf) {
 				continue
+			}
+			nameCount[o.Name]++
+			if c := nameCount[o.Name]; c > 1 {
+				o.Name = fmt.Sprintf("%s#%d", o.Name, c) // never let two obligations share a name (and an SMT file)
 			}
 			o.ModelVars = fr.ParamTerms
 			all = append(all, &oblResult{O: o, FR: fr})
